@@ -1,10 +1,19 @@
 ----------------------------- MODULE O2OStruct -----------------------------
-(* C01/C07 (non-flattened structs): what every conversion must deliver, leaf by leaf.
-   Written from README.md and the property statements (DESIGN Appendix B). *)
+(* C01 / C07 / C08 for non-flattened structs: what every conversion must deliver, leaf by leaf.
+   Written from README.md and the property statements (DESIGN Appendix B), not from expand.rs.
+
+   Abstract input
+     in == [shape |-> "named" | "tuple" | "unit",                      \* the deriving struct
+            form  |-> "same" | "struct" | "tuple" | "bare" | "unit",   \* how the counterpart is written: no hint / as {} / as () / (..) / as Unit
+            ms    |-> Seq(Item),                                       \* member-level instruction of member i
+            sg    |-> Nat, sgm |-> "both" | "split",                   \* struct-level ghosts entries (counterpart-only leaves x1..)
+            vars  |-> 0..2, upd |-> BOOLEAN, ret |-> BOOLEAN]          \* trait-instruction parameters (C08)
+   Values are symbolic strings: "S.<member>" (leaf of the deriving struct), "D.<leaf>" (leaf of the counterpart),
+   "P.<leaf>" (leaf of a pre-existing destination), "U.<leaf>" (leaf of the ..update base), "R.<leaf>" (leaf of the
+   value of a `return` expression), "t<i>(x)" (member i's inline expression applied to x), "g<i>()" (ghost default). *)
 EXTENDS O2OSyntax, TLC
 
-\* input == [shape |-> "named"|"tuple", form |-> "same"|"struct"|"tuple"|"bare"|"unit", ms |-> Seq(item)]
-Menu == {"none", "ren", "expr", "renexpr", "at", "ghostd"}
+Menu == {"none", "ren", "expr", "renexpr", "at", "var", "astype", "astyperen", "ghostd", "ghostb", "gowned", "gref"}
 N2S(i) == ToString(i)
 
 EffForm(in) == CASE in.form = "same" -> in.shape
@@ -12,57 +21,102 @@ EffForm(in) == CASE in.form = "same" -> in.shape
                  [] in.form \in {"tuple", "bare"} -> "tuple"
                  [] in.form = "unit" -> "unit"
 
-GhostFor(it, k) == \/ it = "ghostd"
-                   \/ it = "gowned" /\ k \in Appl("ghost_owned")
-                   \/ it = "gref"   /\ k \in Appl("ghost_ref")
-HasName(it)   == it \in {"ren", "renexpr"}
-HasAction(it) == it \in {"expr", "renexpr", "at"}
+OwnedKinds == {"OI", "FO", "OIE"}
+GhostFor(it, k) == \/ it \in {"ghostd", "ghostb"}
+                   \/ it = "gowned" /\ k \in OwnedKinds
+                   \/ it = "gref"   /\ k \notin OwnedKinds
+AnyGhost(it)  == it \in {"ghostd", "ghostb", "gowned", "gref"}
+HasName(it)   == it \in {"ren", "renexpr", "astyperen"}
+HasAction(it) == it \in {"expr", "renexpr"}
+IsNum(it)     == it \in {"astype", "astyperen"}
 
 \* own member designator and counterpart member designator (strings as they appear in observations)
 Own(in, i) == IF in.shape = "named" THEN "s" \o N2S(i) ELSE N2S(i - 1)
-Pos(in, i, k) == Cardinality({j \in 1..(i-1) : ~GhostFor(in.ms[j], k)})
-CM(in, i, k) ==
+\* same position = position among the members that have a counterpart leaf at all (DESIGN 8.1)
+HasLeaf(it) == it \notin {"ghostd", "ghostb"}
+Pos(in, i) == Cardinality({j \in 1..(i-1) : HasLeaf(in.ms[j])})
+NLeafMembers(in) == Cardinality({j \in DOMAIN in.ms : HasLeaf(in.ms[j])})
+CM(in, i) ==
   IF EffForm(in) = "named"
-  THEN IF HasName(in.ms[i]) THEN "r" \o N2S(i) ELSE "s" \o N2S(i)     \* same name by default (only for named shape)
-  ELSE N2S(Pos(in, i, k))                                               \* same position (choice 8.1); explicit index = that position
+  THEN IF HasName(in.ms[i]) THEN "r" \o N2S(i) ELSE "s" \o N2S(i)     \* same name by default (named shape only)
+  ELSE N2S(Pos(in, i))                                                  \* same position; an explicit index names that position
+SGLeaf(in, j) == IF EffForm(in) = "named" THEN "x" \o N2S(j) ELSE N2S(NLeafMembers(in) + j - 1)
+Extra(in) == IF EffForm(in) = "named" THEN "extra" ELSE N2S(NLeafMembers(in) + in.sg)
 
-\* first member that is mapped for kind k (the "at" item reads it through @)
-FirstMapped(in, k) == First(LAMBDA j : ~GhostFor(in.ms[j], k), Len(in.ms))
+\* leaves of the counterpart type D as the author declares it, and of DX (= D plus a leaf no instruction mentions)
+BaseLeaves(in) == IF EffForm(in) = "unit" THEN {}
+                  ELSE {CM(in, i) : i \in {j \in DOMAIN in.ms : HasLeaf(in.ms[j])}} \cup {SGLeaf(in, j) : j \in 1..in.sg}
+DXLeaves(in) == IF EffForm(in) = "unit" THEN {} ELSE BaseLeaves(in) \cup {Extra(in)}
+DLeaves(in)  == IF in.upd THEN DXLeaves(in) ELSE BaseLeaves(in)
+SLeaves(in)  == {Own(in, i) : i \in DOMAIN in.ms}
 
+FirstMapped(in) == First(LAMBDA j : ~AnyGhost(in.ms[j]), Len(in.ms))
 Tag(i, x) == "t" \o N2S(i) \o "(" \o x \o ")"
+VarVal(in, j, side) == Tag(100 + j, side \o (IF side = "D." THEN CM(in, FirstMapped(in)) ELSE Own(in, FirstMapped(in))))
 
-\* ---- well-formedness of the abstract input (what the author must respect) ----
+\* ---- what the author must respect for the mapping to make sense at all (everything else is C15/C16 material) ----
 WellFormed(in) ==
-  /\ Len(in.ms) >= 1
+  /\ (in.shape = "unit") = (in.ms = <<>>)
+  /\ in.shape = "unit" => in.form \in {"same", "unit"} /\ in.sg = 0 /\ ~in.upd /\ in.vars = 0
   /\ in.shape = "tuple" /\ EffForm(in) = "named" =>
-        \A i \in DOMAIN in.ms : HasName(in.ms[i]) \/ in.ms[i] = "ghostd"            \* class 9 otherwise
-  /\ EffForm(in) = "unit" => \A i \in DOMAIN in.ms : in.ms[i] = "ghostd"
-  /\ EffForm(in) = "tuple" =>                                                       \* ghosts only trailing (8.1 ambiguity excluded)
-        \A i, j \in DOMAIN in.ms : i < j /\ in.ms[i] \in {"ghostd", "gowned", "gref"} => in.ms[j] \in {"ghostd", "gowned", "gref"}
-  /\ (\E i \in DOMAIN in.ms : in.ms[i] = "at") => in.ms[1] \in {"none", "ren", "expr", "renexpr"}   \* @.<first member> must exist on both sides
-  /\ (\E i \in DOMAIN in.ms : in.ms[i] = "at") => EffForm(in) # "unit"
+        \A i \in DOMAIN in.ms : HasName(in.ms[i]) \/ AnyGhost(in.ms[i])                 \* class 9 otherwise
+  /\ in.shape = "tuple" /\ EffForm(in) = "named" => \A i \in DOMAIN in.ms : in.ms[i] \notin {"gowned", "gref"}
+  /\ EffForm(in) = "unit" => (\A i \in DOMAIN in.ms : in.ms[i] = "ghostd") /\ in.sg = 0
+  /\ EffForm(in) = "tuple" => \A i \in DOMAIN in.ms : in.ms[i] \notin {"gowned", "gref"}   \* keeps positions independent of the kind
+  /\ (\E i \in DOMAIN in.ms : in.ms[i] \in {"at", "var"}) => FirstMapped(in) # 0 /\ in.ms[FirstMapped(in)] \in {"none", "ren"}
+  /\ (\E i \in DOMAIN in.ms : in.ms[i] = "var") <=> in.vars >= 1                          \* a var is declared iff it is used
+  /\ in.vars >= 1 => FirstMapped(in) # 0
+  /\ (\E i \in DOMAIN in.ms : in.ms[i] = "ghostb") => in.upd                              \* class 7 otherwise
+  /\ in.upd => in.shape = "named" /\ EffForm(in) = "named"                                \* functional update needs braces
+  /\ in.sg > 0 => EffForm(in) # "unit"
+  /\ in.ret => in.sg = 0 /\ in.vars = 0 /\ ~in.upd
 
 \* ---- denotation ----
-\* From: value of own member i, given counterpart leaves "D.<m>"
+GhostVal(in, i) == IF in.ms[i] = "ghostb" THEN "U." \o Own(in, i) ELSE "g" \o N2S(i) \o "()"
 FromLeaf(in, i, k) ==
   LET it == in.ms[i] IN
-  IF GhostFor(it, k) THEN "g" \o N2S(i) \o "()"
-  ELSE IF it = "at" THEN Tag(i, "D." \o CM(in, 1, k))
-  ELSE IF HasAction(it) THEN Tag(i, "D." \o CM(in, i, k))
-  ELSE "D." \o CM(in, i, k)
-FromExp(in, k) == {[leaf |-> Own(in, i), val |-> FromLeaf(in, i, k)] : i \in DOMAIN in.ms}
+  IF GhostFor(it, k) THEN GhostVal(in, i)
+  ELSE IF it = "at" THEN Tag(i, "D." \o CM(in, FirstMapped(in)))
+  ELSE IF it = "var" THEN "p(" \o VarVal(in, 1, "D.") \o ",D." \o CM(in, i) \o ")"
+  ELSE IF HasAction(it) THEN Tag(i, "D." \o CM(in, i))
+  ELSE "D." \o CM(in, i)
+FromExp(in, k) == IF in.ret THEN {[leaf |-> Own(in, i), val |-> "R." \o Own(in, i)] : i \in DOMAIN in.ms}
+                  ELSE {[leaf |-> Own(in, i), val |-> FromLeaf(in, i, k)] : i \in DOMAIN in.ms}
 
-\* Into / IntoExisting: leaves of the counterpart written from own leaves "S.<m>"
 IntoVal(in, i) ==
   LET it == in.ms[i] IN
-  IF it = "at" THEN Tag(i, "S." \o Own(in, 1))
+  IF it = "at" THEN Tag(i, "S." \o Own(in, FirstMapped(in)))
+  ELSE IF it = "var" THEN "p(" \o VarVal(in, 1, "S.") \o ",S." \o Own(in, i) \o ")"
   ELSE IF HasAction(it) THEN Tag(i, "S." \o Own(in, i))
   ELSE "S." \o Own(in, i)
 Mapped(in, k) == {i \in DOMAIN in.ms : ~GhostFor(in.ms[i], k)}
-IntoExp(in, k) == {[leaf |-> CM(in, i, k), val |-> IntoVal(in, i)] : i \in Mapped(in, k)}
-\* IntoExisting additionally leaves every other leaf as it was ("P.<leaf>"); the harness reports them all
-IEExp(in, k, others) == IntoExp(in, k) \cup {[leaf |-> o, val |-> "P." \o o] : o \in others}
+SGVal(in, j, k) == IF in.sgm = "both" \/ k \in OwnedKinds THEN "gx" \o N2S(j) \o "()" ELSE "gy" \o N2S(j) \o "()"
+\* a member that is ghost for one ownership only has its counterpart leaf supplied by ghosts_owned / ghosts_ref
+Supplied(in, k) == {[leaf |-> CM(in, i), val |-> (IF in.ms[i] = "gowned" THEN "go" ELSE "gr") \o N2S(i) \o "()"] :
+                      i \in {j \in DOMAIN in.ms : in.ms[j] \in {"gowned", "gref"} /\ GhostFor(in.ms[j], k)}}
+Written(in, k) == {[leaf |-> CM(in, i), val |-> IntoVal(in, i)] : i \in Mapped(in, k)}
+                  \cup {[leaf |-> SGLeaf(in, j), val |-> SGVal(in, j, k)] : j \in 1..in.sg}
+                  \cup Supplied(in, k)
+Rest(pref, all, W) == {[leaf |-> o, val |-> pref \o o] : o \in {x \in all : \A w \in W : w.leaf # x}}
+IntoExp(in, k) == IF EffForm(in) = "unit" THEN {}
+                  ELSE IF in.ret THEN {[leaf |-> o, val |-> "R." \o o] : o \in DLeaves(in)}
+                  ELSE Written(in, k) \cup Rest("U.", DLeaves(in), Written(in, k))
+\* IntoExisting: the mapped leaves as Into, every other leaf of the existing value keeps what it held ("P.<leaf>")
+IEExp(in, k) == IF EffForm(in) = "unit" THEN {}
+                ELSE IF in.ret THEN {[leaf |-> o, val |-> "R." \o o] : o \in DXLeaves(in)}
+                ELSE Written(in, k) \cup Rest("P.", DXLeaves(in), Written(in, k))
 
-Expected(in, k, others) ==
-  IF IsFrom(k) THEN FromExp(in, k) ELSE IF IsIE(k) THEN IEExp(in, k, others) ELSE IntoExp(in, k)
+Expected(in, k) == IF IsFrom(k) THEN FromExp(in, k) ELSE IF IsIE(k) THEN IEExp(in, k) ELSE IntoExp(in, k)
+
+\* the `?` sites of the fallible twin: members whose inline expression is fallible there
+Sites(in, k) == {i \in Mapped(in, k) : HasAction(in.ms[i])}
+
+\* vars(...) -- C08: evaluated once each, in declaration order, before any member expression
+VarsPrefix(in) == [j \in 1..in.vars |-> "v" \o N2S(j)]
+
+\* ---- the cell of the product an observation belongs to (for known findings) ----
+Cell(in, k, f) == [shape |-> in.shape, form |-> in.form, eff |-> EffForm(in), kind |-> k, fallible |-> f,
+                   ghost_before_mapped |-> \E i, j \in DOMAIN in.ms : i < j /\ ~HasLeaf(in.ms[i]) /\ HasLeaf(in.ms[j]),
+                   action_no_name |-> \E i \in DOMAIN in.ms : in.ms[i] \in {"expr", "at", "var", "astype"},
+                   items |-> {in.ms[i] : i \in DOMAIN in.ms}]
 =============================================================================
